@@ -275,13 +275,13 @@ fn scan_case(case: u64, rng: &mut Rng, rep: &mut Report) {
     if case == 0 {
         // more than 65536 striped rows scanned in one block (and in blocks of 65536 / 65537 rows)
         let m = rng.range(4, 8);
-        let l = 65536 * 32 + 32 * rng.range(1, 3) + rng.below(32);
+        let l = 65536 * 32 + 32 * rng.range(300, 2500) + rng.below(32);
         let inp = make_scan_input(rng, l, m, false);
         rep.cover("class.rows>65536");
         let mut v: Vec<f64> = inp.exact.iter().map(|e| e.0).filter(|x| x.is_finite()).collect();
         v.sort_by(|a, b| b.partial_cmp(a).unwrap());
         for (i, &b) in [usize::MAX, 65537, 65536].iter().enumerate() {
-            let t = if v.len() > 2000 { (v[200 + 300 * i] - 1e-3) as f32 } else { 0.0 };
+            let t = if v.len() > 6000 { (v[3000 + 500 * i] - 1e-3) as f32 } else { 0.0 };
             one_scan(case, rep, &inp, [Arm::DispAuto, Arm::DispAvx2, Arm::DispAuto][i], t, b);
         }
         return;
